@@ -128,7 +128,17 @@ impl World {
     }
     fn vkpop(&self, vk: usize, pop: usize) -> mithril_common::crypto_helper::ProtocolSignerVerificationKeyForConcatenation {
         let mut x = self.keys[vk].verification_key_for_concatenation();
-        x.pop = self.keys[pop].verification_key_for_concatenation().pop;
+        if let Some((a, b)) = splice_of(pop) {
+            // first half (k1) of one key's proof, second half (k2) of another's: each half is a valid group
+            // element, at most one of them matches the key
+            let (pa, pb) = (self.keys[a].verification_key_for_concatenation().to_bytes(), self.keys[b].verification_key_for_concatenation().to_bytes());
+            let mut bytes = x.to_bytes();
+            bytes[96..144].copy_from_slice(&pa[96..144]);
+            bytes[144..192].copy_from_slice(&pb[144..192]);
+            x = mithril_stm::VerificationKeyProofOfPossessionForConcatenation::from_bytes(&bytes).expect("spliced proof of possession decodes");
+        } else {
+            x.pop = self.keys[pop].verification_key_for_concatenation().pop;
+        }
         x.into()
     }
     fn kes_sig(&self, k: KesSigSpec) -> mithril_common::crypto_helper::ProtocolSignerVerificationKeySignatureForConcatenation {
@@ -257,6 +267,16 @@ fn kes_id(i: usize) -> u64 {
 }
 fn key_id(i: usize) -> u64 {
     300 + i as u64
+}
+/// a proof of possession made of the k1 half of key a's proof and the k2 half of key b's (a != b):
+/// in the model it is a proof identity that is no key's (C07.Model.pop_valid compares identities)
+const SPLICE: usize = 1_000_000;
+fn splice(a: usize, b: usize) -> usize {
+    assert!(a != b && a < 1000 && b < 1000);
+    SPLICE + a * 1000 + b
+}
+fn splice_of(pop: usize) -> Option<(usize, usize)> {
+    if pop >= SPLICE { Some(((pop - SPLICE) / 1000, (pop - SPLICE) % 1000)) } else { None }
 }
 fn party_term(p: Party) -> String {
     match p {
@@ -539,6 +559,10 @@ fn gen_specs(rng: &mut Rng, thorough: bool) -> Vec<Spec> {
                 ("verification key replaced", RegSpec { vk: kb, pop: kb, ..base.clone() }),
                 ("verification key replaced, proof kept", RegSpec { vk: kb, ..base.clone() }),
                 ("proof of possession of another key", RegSpec { pop: kb, ..base.clone() }),
+                ("proof of possession: own first half, another key's second half", RegSpec { pop: splice(ka, kb), ..base.clone() }),
+                ("proof of possession: another key's first half, own second half", RegSpec { pop: splice(kb, ka), ..base.clone() }),
+                ("proof of possession: own first half, another key's second half, KES-signed as such", RegSpec { pop: splice(ka, kb), kes_sig: Some(KesSigSpec { pop: splice(ka, kb), ..ks }), ..base.clone() }),
+                ("proof of possession: another key's first half, own second half, KES-signed as such", RegSpec { pop: splice(kb, ka), kes_sig: Some(KesSigSpec { pop: splice(kb, ka), ..ks }), ..base.clone() }),
                 ("proof of possession of another key, KES-signed as such", RegSpec { pop: kb, kes_sig: Some(KesSigSpec { pop: kb, ..ks }), ..base.clone() }),
                 ("another key certified by this pool (valid)", RegSpec { vk: kb, pop: kb, kes_sig: Some(KesSigSpec { vk: kb, pop: kb, ..ks }), ..base.clone() }),
                 ("claimed party id of another pool", RegSpec { party: Some(Party::Pool(b)), ..base.clone() }),
